@@ -122,7 +122,8 @@ bool StepScript(InterpreterEnv& env)
     if (env.tce) {
         switch (env.tce->Iterate()) {
         case TaprootCommitmentEnv::State::Failed:
-            return false;
+            // (the error used to be left at its initial value: "unknown error")
+            return set_error(env.serror, SCRIPT_ERR_WITNESS_PROGRAM_MISMATCH);
         case TaprootCommitmentEnv::State::Tweaked:
         case TaprootCommitmentEnv::State::Processing:
             ++env.curr_op_seq;
